@@ -39,7 +39,23 @@ const property = "C17"
 // (pdftree.maxChildren, "64 entries" in the property's anchors).
 const maxFan = 64
 
-var versions = []pdf.Version{pdf.V1_4, pdf.V1_7, pdf.V2_0}
+// versions is indexed by Case.Version (indices 0-2 are kept for old replay
+// files).  The tree writers use only Writer.Put of dictionaries and arrays,
+// which every PDF version supports.
+var versions = []pdf.Version{pdf.V1_4, pdf.V1_7, pdf.V2_0, pdf.V1_0, pdf.V1_1, pdf.V1_2, pdf.V1_3, pdf.V1_5, pdf.V1_6}
+
+// specVersion is the PDF version which introduced the structure: name trees
+// PDF 1.2, number trees PDF 1.3 (ISO 32000-1 7.9.6, 7.9.7).  From that
+// version on a writer must produce the tree.  Below it the unchanged library
+// writes the tree as well (it has no version checks); the check accepts a
+// pdf.VersionError there too, since refusing a structure the target version
+// does not know is no violation of the property.
+func specVersion(tree string) pdf.Version {
+	if tree == "name" {
+		return pdf.V1_2
+	}
+	return pdf.V1_3
+}
 
 // Case is one finite map.
 type Case struct {
@@ -316,8 +332,24 @@ func run[K comparable](c *Case, a api[K], keys []K) error {
 	}
 	before := out.Alloc()
 	root, err := a.write(out, keys, vals, c.UseMap)
+	ver := versions[c.Version]
+	c.obs.flags["pdf-"+ver.String()] = true
+	if ver < specVersion(c.Tree) {
+		c.obs.flags["below-spec-version"] = true
+		var ve *pdf.VersionError
+		if err != nil && errors.As(err, &ve) {
+			c.obs.flags["version-error-below-spec"] = true
+			return nil
+		}
+	}
 	if err != nil {
-		return fmt.Errorf("writing a tree of %d sorted, distinct keys failed (stream open: %v): %v", n, c.InStream, err)
+		return fmt.Errorf("writing a %s tree of %d sorted, distinct keys into a PDF %s file failed (stream open: %v): %v", c.Tree, n, ver, c.InStream, err)
+	}
+	if c.Tree == "name" && ver == pdf.V1_2 {
+		c.obs.flags["nametree-in-1.2"] = true
+	}
+	if c.Tree == "num" && ver == pdf.V1_3 {
+		c.obs.flags["numtree-in-1.3"] = true
 	}
 	after := out.Alloc()
 	if stm != nil {
